@@ -3,6 +3,7 @@
 //!   `if let PAT = E { A } else { B }`      ->  `match E { PAT => A, _ => B }`      (no `else`: `_ => {}`)
 //!   `let PAT = E else { DIVERGE };`        ->  `let x = match E { PAT => x, _ => DIVERGE };`   (PAT binds exactly one name x)
 //!   `let mut it = E; ..lets..; while let Some(P) = it.next() { B }`  ->  `..lets..; for P in E { B }`   (`it` used nowhere else; see `while_let_next`)
+//!   `let x = if C { CALL } else { LIT };`  ->  `let mut x = LIT; if C { x = CALL; }`   (LIT a literal: evaluating it first is unobservable; see `let_if_literal`)
 //! Both are the definitions of these forms in the Rust reference; nothing is approximated.
 use syn::visit_mut::{self, VisitMut};
 use syn::*;
@@ -32,6 +33,7 @@ impl VisitMut for Desugar {
     fn visit_block_mut(&mut self, b: &mut Block) {
         visit_mut::visit_block_mut(self, b);
         while_let_next(b);
+        let_if_literal(b);
         for st in b.stmts.iter_mut() {
             if let Stmt::Local(l) = st {
                 let Some(init) = &l.init else { continue };
@@ -112,6 +114,40 @@ fn while_let_next(b: &mut Block) {
         let body = &w.body;
         b.stmts[j] = parse_quote!(for #p in #e #body);
         b.stmts.remove(i);
+    }
+}
+
+/// `let x = if C { E } else { LIT };` with `E` a method call (it may mutate its receiver and return a flag) and `LIT` a literal
+/// ->  `let mut x = LIT; if C { x = E; }`.  Exact: a literal has no effects, `C` and `E` are evaluated in the same order and under
+/// the same condition, and `x` ends up with the same value on both paths.  (The form the limb-level translator understands:
+/// a statement-level `if` that assigns.)
+fn let_if_literal(b: &mut Block) {
+    let mut i = 0;
+    while i < b.stmts.len() {
+        let mut repl: Option<(Stmt, Stmt)> = None;
+        if let Stmt::Local(l) = &b.stmts[i] {
+            if let (Pat::Ident(pi), Some(init)) = (&l.pat, &l.init) {
+                if pi.by_ref.is_none() && pi.subpat.is_none() && init.diverge.is_none() {
+                    if let Expr::If(iff) = &*init.expr {
+                        if !matches!(&*iff.cond, Expr::Let(_)) {
+                            if let Some((_, el)) = &iff.else_branch {
+                                if let Expr::Block(eb) = &**el {
+                                    let then_e = match iff.then_branch.stmts.as_slice() { [Stmt::Expr(e, None)] => Some(e), _ => None };
+                                    let else_e = match eb.block.stmts.as_slice() { [Stmt::Expr(e, None)] => Some(e), _ => None };
+                                    if let (Some(te), Some(ee)) = (then_e, else_e) {
+                                        if matches!(te, Expr::MethodCall(_)) && matches!(ee, Expr::Lit(_)) && eb.label.is_none() {
+                                            let x = &pi.ident; let c = &iff.cond;
+                                            repl = Some((parse_quote!(let mut #x = #ee;), parse_quote!(if #c { #x = #te; })));
+                                        }
+                                    }
+                                }
+                            }
+                        }
+                    }
+                }
+            }
+        }
+        if let Some((a, bb)) = repl { b.stmts[i] = a; b.stmts.insert(i + 1, bb); i += 2; } else { i += 1; }
     }
 }
 
